@@ -162,8 +162,19 @@ def evaluate_case(pt, case):
     out["hill"] = scalar(pt, _with_density(f.hill, rho), w)
     e = float(nsf.neutron_energy(w))
     out["energy"] = nc.scat_tuple(nsf.neutron_scattering(f, energy=e))
+    # the other documented entry points of the same calculation: the function neutron_sld and the
+    # Formula method, each by wavelength and by the equivalent energy
+    def _sld3(v):
+        return "missing" if v is None or v[0] is None else [float(x) for x in v]
+    out["entry:neutron_sld(wavelength)"] = _sld3(nsf.neutron_sld(f, wavelength=w))
+    out["entry:neutron_sld(energy)"] = _sld3(nsf.neutron_sld(f, energy=e))
+    out["entry:Formula.neutron_sld(wavelength)"] = _sld3(f.neutron_sld(wavelength=w))
+    out["entry:Formula.neutron_sld(energy)"] = _sld3(f.neutron_sld(energy=e))
     ws = case["ws"]
-    vec = nc.scat_vectors(nsf.neutron_scattering(f, wavelength=np.array(ws)), len(ws))
+    warr = nc.reused_array(ws)
+    vec = nc.scat_vectors(nsf.neutron_scattering(f, wavelength=warr), len(ws))
+    if list(warr) != list(ws):
+        out["argument-modified"] = True
     out["vector"] = vec
     out["scalars"] = [scalar(pt, f, x) for x in ws]
     # natural density: the same compound given by its natural density
@@ -210,8 +221,8 @@ def gen_case(rng, pools):
     s = gen_struct(rng, pools)
     vseed = rng.randrange(2 ** 31)
     return dict(struct=s, vseed=vseed, density=nc.gen_density(rng), w=nc.gen_wavelength(rng, pools),
-                k=rng.choice([2.0, 0.5, 10.0, 1e-3, 3.7, 0.1, 1.0000001, 123.456]),
-                c=rng.choice([2.0, 3.0, 0.5, 10.0, 0.1, 7.0, 1e3, 1e-3, 2.5]),
+                k=rng.choice([2.0, 0.5, 10.0, 1e-3, 3.7, 0.1, 1.0000001, 123.456, 1e-9, 1e-12, 1e6]),
+                c=rng.choice([2.0, 3.0, 0.5, 10.0, 0.1, 7.0, 1e3, 1e-3, 2.5, 1e-11, 1e-13, 1e9]),
                 ws=[nc.gen_wavelength(rng, pools) for _ in range(rng.randint(1, 6))],
                 variants=variants(random.Random(vseed), s))
 
@@ -238,6 +249,19 @@ def judge(run, pt, case, replies):
     else:
         for i, (v, sc) in enumerate(zip(out["vector"], out["scalars"])):
             rel.append(("vector entry %d vs scalar call" % i, sc, v, N))
+    for name in [n_ for n_ in out if n_.startswith("entry:")]:
+        want3 = b if isinstance(b, str) else list(b[:3])
+        if isinstance(b, str) and b == "vacuum":
+            want3 = [0.0, 0.0, 0.0]
+        got3 = out[name]
+        ok = (want3 == got3) if isinstance(want3, str) or isinstance(got3, str) else \
+            nc.sld_close(got3, want3, N, nc.sigma_total_xs(b))
+        if not ok:
+            run.violation("invariance broken: %s differs from neutron_scattering(wavelength=)" % name[6:], inp,
+                          relation="energy= vs wavelength=", site="entry-point", got=str(got3), expected=str(want3))
+    if out.get("argument-modified"):
+        run.violation("neutron_scattering modified the wavelength array it was given", inp,
+                      relation="vector entry", site="argument-modified")
     for name, want, got, n in rel:
         if not nc.scat_close(want, got, n):
             run.violation("invariance broken: %s" % name, inp, relation=name.split(" (")[0], site="invariance")
